@@ -23,3 +23,25 @@ reg("C02", "exploration", "bounded-exhaustive enumeration of Module-DSL statemen
     "pairs of assignments and all two-level nestings over a pool of assignment forms are built through the Module DSL, simulated, and compared under every valuation "
     "of the inputs they read with a reference implementing the statement literally; FSMs are driven with every input/reset sequence up to depth 4 (6).",
     "Trusted: vf/ref/stmt.py + vf/ref/expr.py. Targets 4+3 bits; five inputs of 1-3 bits; sync transition function checked pointwise from 5 register states.")
+reg("C13", "model_checking", "explicit-state BFS of the real simulated AsyncFIFO / AsyncFIFOBuffered under every interleaving {write edge, read edge, both} x strobes, product with a queue model; liveness on the stored graph; exhaustive constructor sweep and periodic schedules",
+    "The full reachable graph of registers + synchroniser flops + memory rows in product with the queue model is enumerated under every {W, R, both} x (w_en, w_data, r_en) "
+    "action for depths 1-4 (quick) and up to AsyncFIFOBuffered(3, width 2) (thorough); safety on every transition, bounded-response liveness computed on the stored edge graph; "
+    "every depth 0..34 x exact_depth x class must raise in the constructor or elaborate; larger depths are covered by exhaustive periodic clock schedules.",
+    "Trusted: Python simulator as execution vehicle; 40-line queue model; the cone-of-influence alphabet reduction on the largest graphs is cross-checked successor by successor on full-alphabet graphs. Write-domain reset is not asserted.")
+reg("C15", "exploration", "bounded-exhaustive enumeration of layout trees x all bit patterns against a plain-int placement/decode/assign reference; FlagView operators against a pure-Python enum.Flag twin",
+    "Every layout inside the bounds (depth<=2, <=8 bits, 13 leaf kinds incl. signed and enum fields; struct/union/array/flexible/annotated classes) is checked on every bit pattern and field value: "
+    "placement, const/read-back, from_bits/as_bits, the ShapeCastable laws, view fields in constant folding and in the Python simulator (ctx.get/ctx.set and a compiled comb module), assignment through "
+    "fields with static and dynamic indices; shaped Enum/Flag round trips and all FlagView operator pairs per boundary mode.",
+    "Trusted: vf/ref/c15_layout.py. The synthesis leg of the statement is evidenced through C04's RTLIL co-execution of view-field designs only indirectly (rtlil_leg hook skipped).")
+reg("C16", "model_checking", "bounded-exhaustive enumeration (software CRC, catalogue) + explicit-state BFS of the simulated crc.Processor in product with a bit-serial Williams reference register",
+    "compute()/residue() are compared with a bit-serial Rocksoft-model register for all parameter sets of crc_width<=4 (5) x data widths x word sequences, all 157 catalogue names against published check/residue values; "
+    "the full reachable product graph of Processor x reference is explored for crc_width<=3 (4) under all (start, valid, data), checking crc and match_detected on every transition; catalogue algorithms by directed traces + bounded BFS.",
+    "Trusted: vf/ref/c16_crc.py (bit-serial model), published values transcribed from the reveng table. Negative match clause demanded only for polynomials with an x^0 term (otherwise the register map is not injective).")
+reg("C17", "model_checking", "explicit-state BFS of the real simulated CDC primitives (clock levels, input and reset levels toggled by actions) in product with delay-line / edge-counter / pulse-ledger models",
+    "For every configuration in bounds of FFSynchronizer, AsyncFFSynchronizer, ResetSynchronizer and PulseSynchronizer the full reachable product graph is explored, every state expanded with every action and the "
+    "output compared with an int model after every action; environment-assumption-violating PulseSynchronizer paths are pruned; async/reset synchronisers on negedge domains must be refused.",
+    "Trusted: three ~40-line models in vf/props/c17.py; state injection validated by replay from reset. Bounds: FF stages<=4/6, width<=2/3; Async/Reset stages<=3/6; Pulse stages<=3/7. PulseSynchronizer latency is not pinned by the statement.")
+reg("C18", "exploration", "bounded-exhaustive enumeration of port expressions / buffer configurations x all (o, oe, pad) valuations against a tuple reference algebra; FFBuffer by BFS with a register model; real ports via netlist and RTLIL evaluation",
+    "All port expressions of depth<=2 over ~, indexing, slicing and + on every base port (width 0..3, all inversion masks, i/o/io) of the three port classes; Buffer on simulation ports for every legal/illegal direction pair and every valuation; "
+    "FFBuffer full reachable graphs vs one register per direction; Buffer/FFBuffer on real ports evaluated through the fine netlist and the RTLIL text with exactly-one-use and DriverConflict checks.",
+    "Trusted: vf/ref/c18_ref.py and the small netlist/RTLIL evaluators in vf/ref/c18_netlist.py. DDRBuffer and platform overrides are out of scope of the statement.")
